@@ -1,5 +1,78 @@
-(* C17 - placeholder while the correspondence is being validated *)
+(* C17 - tags are scoped: test-local changes never leak, run-level changes persist.
+   Only statements; every proof is `exact <lemma of Proof/C17.v>`. *)
 From TT Require Import Lib.Base Model.Tags Spec.C17 Corr.C17 Proof.C17.
-Example C17_example : spec_okb {| stack := TFR (Leaf false); hist := [StartRun; Tags ([1],[]); StartTest; Tags ([2],[1]); Outcome; StopTest; Outcome] |}
-   (model {| stack := TFR (Leaf false); hist := [StartRun; Tags ([1],[]); StartTest; Tags ([2],[1]); Outcome; StopTest; Outcome] |}) = true.
-Proof. vm_compute. reflexivity. Qed.
+
+(* The model meets the whole statement: for every adapter stack and every history of calls
+   (the quantifier's restrictions - tests not nested; new/gone disjoint, one outcome per test, no
+   startTestRun inside a test - are hypotheses inside spec_okb, clause by clause). *)
+Theorem C17_holds : forall i : input, spec_okb i (model i) = true.
+Proof. exact model_meets_spec. Qed.
+Print Assumptions C17_holds.
+
+(* ... and the executable statement implies the readable one (Spec.C17.Spec). *)
+Theorem C17_statement : forall i o, spec_okb i o = true -> Spec i o.
+Proof. exact spec_okb_sound. Qed.
+Print Assumptions C17_statement.
+
+(* Every implementation of current_tags (own TagContext: TestResult, MultiTestResult,
+   ThreadsafeForwardingResult, ExtendedToStreamDecorator, ExtendedToOriginalDecorator over an old result,
+   doubles.ExtendedTestResult; delegating: TestResultDecorator, Tagger, ExtendedToOriginalDecorator)
+   refines the two-level specification after every call of every history without nested tests -
+   including outcome + stopTest without startTest, and startTestRun anywhere. *)
+Theorem C17_current : forall a h, nn_from false h = true ->
+  Forall2 seteq (reporter_scan a h) (spec_scan (chain a) h).
+Proof. exact current_refines. Qed.
+Print Assumptions C17_current.
+
+(* The algebra behind _merge_tags: for disjoint new/gone sets a sequence of changes applied to any
+   base equals the single merged change; merged pairs stay disjoint; false without disjointness. *)
+Theorem C17_merge : forall B chs, Forall disjoint chs ->
+  seteq (fold_left apply1 chs B) (apply1 B (fold_left merge_tags chs no_change)).
+Proof. exact merge_law. Qed.
+Print Assumptions C17_merge.
+
+Theorem C17_merge_keeps_disjoint : forall ex ch, disjoint ex -> disjoint ch -> disjoint (merge_tags ex ch).
+Proof. exact merge_disjoint. Qed.
+Print Assumptions C17_merge_keeps_disjoint.
+
+Theorem C17_merge_needs_disjoint : exists B ex ch,
+  ~ seteq (apply1 (apply1 B ex) ch) (apply1 B (merge_tags ex ch)).
+Proof. exact merge_needs_disjoint. Qed.
+Print Assumptions C17_merge_needs_disjoint.
+
+(* Through every adapter stack - MultiTestResult, decorators, ExtendedToOriginalDecorator,
+   ThreadsafeForwardingResult, ExtendedToStreamDecorator -> StreamToExtendedDecorator -> PlaceHolder.run,
+   nested to any depth - every wrapped result and every stream consumer observes, at each outcome,
+   the reporter's current_tags at that outcome (leaves below a Tagger that is not part of the
+   reporter are exempt: clean_leaves). *)
+Theorem C17_observed : forall a h,
+  wf_from false false h = true -> forallb disjointb (chain a) = true ->
+  Forall2 (fun clean l => clean = true -> Forall2 seteq l (at_outcomes h (reporter_scan a h)))
+          (clean_leaves a) (leaves_obs a h).
+Proof. exact observed_ok. Qed.
+Print Assumptions C17_observed.
+
+(* one forwarder in isolation: what ThreadsafeForwardingResult sends to its target shows, at every
+   outcome, the tags current in the forwarder - and is again a well-formed stream *)
+Theorem C17_tfr : forall h, wf_from false false h = true ->
+  Forall2 seteq (sobs_from [] sp0 (trans tfr_step tfr0 h)) (sobs_from [] sp0 h)
+  /\ wf_from false false (trans tfr_step tfr0 h) = true.
+Proof. exact (fun h => tfr_ok h false false tfr0 sp0 sp0 tfr_inv_init). Qed.
+Print Assumptions C17_tfr.
+
+(* the correspondence compares observations as lists of tag SETS *)
+Theorem C17_obs_eqb : forall a b, obs_eqb a b = true <-> obs_equiv a b.
+Proof. exact obs_eqb_spec. Qed.
+Print Assumptions C17_obs_eqb.
+
+(* non-vacuity: add globally, startTest-less skip pair, remove locally, tags after the outcome, next
+   test, restart - through a Tagger over a forwarder over a multiplexer with a stream pair *)
+Example C17_example :
+  let a := Tagger ([2], []) (TFR (Multi [Leaf false; E2S (Leaf true)])) in
+  let h := [StartRun; Tags ([0], []); Outcome; StopTest; StartTest; Tags ([1], [0]); Outcome; Tags ([0], []);
+            StopTest; StartTest; Outcome; StopTest; StartRun; StartTest; Outcome; StopTest] in
+  wf_from false false h = true
+  /\ reporter_scan a h = [[]; [0]; [0]; [0]; [0; 2]; [2; 1]; [2; 1]; [2; 1; 0]; [0]; [0; 2]; [0; 2]; [0]; []; [2]; [2]; []]
+  /\ leaves_obs a h = [[[0]; [2; 1]; [0; 2]; [2]]; [[0]; [2; 1]; [0; 2]; [2]]; [[0]; [2; 1]; [0; 2]; [2]]]
+  /\ clean_leaves a = [true; true; true].
+Proof. vm_compute. repeat split. Qed.
